@@ -672,6 +672,80 @@ pub fn impl_truth_supported(al: &[(u8, A)], s: &St) -> bool {
     }
 }
 
+// ---------------------------------------------------------------------------------- JSON layer
+
+fn opposite_statement(st: &J) -> J {
+    let mut s = st.clone();
+    let ty = s.get("type").and_then(|t| t.as_str()).unwrap_or("").to_string();
+    match ty.as_str() {
+        "AttributeInRange" => { let lo = s["lower"].clone(); let hi = s["upper"].clone(); s["lower"] = hi; s["upper"] = lo; }
+        "AttributeInSet" => { s["type"] = json!("AttributeNotInSet"); }
+        "AttributeNotInSet" => { s["type"] = json!("AttributeInSet"); }
+        _ => {}
+    }
+    s
+}
+
+fn bump_digit(x: &str) -> Option<String> {
+    let mut cs: Vec<char> = x.chars().collect();
+    for i in (0..cs.len()).rev() {
+        if let Some(d) = cs[i].to_digit(10) { cs[i] = std::char::from_digit((d + 1) % 10, 10).unwrap(); return Some(cs.into_iter().collect()); }
+    }
+    None
+}
+
+/// Every single structural mutation of a presentation / request JSON: statement and proof arrays are
+/// extended, shortened and reordered INDEPENDENTLY of each other, scalar fields are altered.
+pub fn json_mutations(root: &J) -> Vec<(String, J)> {
+    fn walk(v: &J, path: &mut Vec<String>, out: &mut Vec<(Vec<String>, String)>) {
+        match v {
+            J::Object(m) => {
+                for (k, x) in m.iter() {
+                    path.push(k.clone());
+                    if let J::Array(a) = x {
+                        if k == "statement" || k == "statements" || (k == "proofValue" && !a.is_empty()) || k == "verifiableCredential" || k == "given" || k == "requested" || k == "credentialStatements" || k == "subjectClaims" {
+                            for op in ["append_dup", "append_opposite", "remove_last", "swap_first_two"] { out.push((path.clone(), op.to_string())); }
+                        }
+                    }
+                    if let J::String(_) = x {
+                        if ["issuer", "id", "created", "validFrom", "validUntil", "context", "label", "lower", "upper", "presentationContext", "challenge", "attributeTag", "attributeValue"].contains(&k.as_str()) {
+                            out.push((path.clone(), "bump_digit".to_string()));
+                        }
+                    }
+                    if let J::Number(_) = x { out.push((path.clone(), "bump_number".to_string())); }
+                    walk(x, path, out);
+                    path.pop();
+                }
+            }
+            J::Array(a) => { for (i, x) in a.iter().enumerate() { path.push(i.to_string()); walk(x, path, out); path.pop(); } }
+            _ => {}
+        }
+    }
+    fn at<'a>(v: &'a mut J, path: &[String]) -> &'a mut J {
+        let mut cur = v;
+        for p in path { cur = if cur.is_array() { let i: usize = p.parse().unwrap(); &mut cur[i] } else { &mut cur[p.as_str()] }; }
+        cur
+    }
+    let mut locs = Vec::new();
+    walk(root, &mut Vec::new(), &mut locs);
+    let mut res = Vec::new();
+    for (path, op) in locs {
+        let mut m = root.clone();
+        let slot = at(&mut m, &path);
+        let changed = match (op.as_str(), &mut *slot) {
+            ("append_dup", J::Array(a)) if !a.is_empty() => { let x = a[0].clone(); a.push(x); true }
+            ("append_opposite", J::Array(a)) if !a.is_empty() => { let x = opposite_statement(&a[0]); if x != a[0] { a.push(x); true } else { false } }
+            ("remove_last", J::Array(a)) if !a.is_empty() => { a.pop(); true }
+            ("swap_first_two", J::Array(a)) if a.len() >= 2 && a[0] != a[1] => { a.swap(0, 1); true }
+            ("bump_digit", J::String(x)) => match bump_digit(x) { Some(y) => { *x = y; true } None => false },
+            ("bump_number", J::Number(n)) => match n.as_u64() { Some(u) => { *slot = json!(u.wrapping_add(1)); true } None => false },
+            _ => false,
+        };
+        if changed { res.push((format!("json:{}:{}", path.join("."), op), m)); }
+    }
+    res
+}
+
 // ---------------------------------------------------------------------------------- framing
 
 struct RawBytes(Vec<u8>);
